@@ -547,6 +547,26 @@ func (f *Factory) cmp(op string, a, b *Term) *Term {
 	if op == "bvule" && a.konst && a.cv == 0 {
 		return f.Bool(true)
 	}
+	// interval-based folding against constants (upper bounds asserted on this path)
+	if (op == "bvult" || op == "bvule") && b.konst && f.ub != nil {
+		if lo, hi, ok := f.urange(a); ok {
+			if op == "bvult" {
+				if hi < b.cv {
+					return f.Bool(true)
+				}
+				if lo >= b.cv {
+					return f.Bool(false)
+				}
+			} else {
+				if hi <= b.cv {
+					return f.Bool(true)
+				}
+				if lo > b.cv {
+					return f.Bool(false)
+				}
+			}
+		}
+	}
 	// zero-extended operands against constants
 	if op == "bvult" || op == "bvule" {
 		if a.op == "zext" && b.konst {
